@@ -1591,3 +1591,143 @@ func (p *Prog) indexWrappers() []Ob {
 	}
 	return obs
 }
+
+// ---------------------------------------------------------------------------
+// R39 PARAMS-FROM-OPTIONS (C13, C11): index.Params.Times is Options.TimeIndex and Params.Keys is
+// Options.KeyIndex wherever a Params value is built (the two single-column layouts have the same
+// item size, so a swap is not caught by any size check).
+func ruleR39(p *Prog) []Ob {
+	var obs []Ob
+	want := map[string]string{"Times": "TimeIndex", "Keys": "KeyIndex"}
+	var origin func(v ssa.Value, fn *ssa.Function, d int) []string
+	origin = func(v ssa.Value, fn *ssa.Function, d int) []string {
+		v = canon(v)
+		if f, base := loadedField(v); f != nil {
+			if namedOf(derefPtr(base.Type())) == p.R.Options || namedOf(base.Type()) == p.R.Options {
+				return []string{"Options." + f.Name()}
+			}
+			if namedOf(derefPtr(base.Type())) == p.R.Params || namedOf(base.Type()) == p.R.Params {
+				return []string{"Params." + f.Name()}
+			}
+			return []string{"field " + f.Name()}
+		}
+		if pr, ok := v.(*ssa.Parameter); ok && d < 3 {
+			idx := -1
+			for i, q := range fn.Params {
+				if q == pr {
+					idx = i
+				}
+			}
+			var out []string
+			for _, g := range p.Funcs {
+				for _, b := range g.Blocks {
+					for _, ins := range b.Instrs {
+						if c, ok := ins.(ssa.CallInstruction); ok && c.Common().StaticCallee() == fn && idx >= 0 && idx < len(c.Common().Args) {
+							out = append(out, origin(c.Common().Args[idx], g, d+1)...)
+						}
+					}
+				}
+			}
+			if len(out) == 0 {
+				return []string{"parameter " + pr.Name() + " (no caller in the module)"}
+			}
+			return out
+		}
+		if k, ok := v.(*ssa.Const); ok {
+			return []string{"constant " + k.Value.String()}
+		}
+		return []string{v.String()}
+	}
+	n := 0
+	for _, fn := range p.Funcs {
+		if !srcFunc(fn) {
+			continue
+		}
+		k := 0
+		for _, b := range fn.Blocks {
+			for _, ins := range b.Instrs {
+				st, ok := ins.(*ssa.Store)
+				if !ok {
+					continue
+				}
+				fa, ok := st.Addr.(*ssa.FieldAddr)
+				if !ok || namedOf(derefPtr(fa.X.Type())) != p.R.Params {
+					continue
+				}
+				f := fieldVarOfAddr(fa)
+				w, tracked := want[f.Name()]
+				if !tracked {
+					continue
+				}
+				n++
+				k++
+				ob := Ob{Rule: "R39", Inst: fmt.Sprintf("params-from-options:%s#%d", funcLabel(fn), k), Props: []string{"C13", "C11"}, Pos: p.at(st), Func: funcLabel(fn), Nontrivial: true}
+				var bad []string
+				for _, o := range uniqSorted(origin(st.Val, fn, 0)) {
+					if o != "Options."+w && o != "Params."+f.Name() {
+						bad = append(bad, fmt.Sprintf("Params.%s is set from %s", f.Name(), o))
+					}
+				}
+				if len(bad) > 0 {
+					ob.Status, ob.Msg, ob.Path = Violated, "an index.Params value gets a column switch from something other than the option of the same column: with one column enabled the items are read and written as the other one", bad
+				} else {
+					ob.Status, ob.Msg = Discharged, "Params."+f.Name()+" is Options."+w
+				}
+				obs = append(obs, ob)
+			}
+		}
+	}
+	if n == 0 {
+		obs = append(obs, Ob{Rule: "R39", Inst: "params-from-options", Props: []string{"C13", "C11"}, Pos: "-", Status: Undecided, Msg: "no construction of index.Params found"})
+	}
+	return obs
+}
+
+func uniqSorted(s []string) []string {
+	sort.Strings(s)
+	return uniqStrings(s)
+}
+
+// R36c STAT-FRESH (C13): a segment reader answers Stat with what Segment.Stat computed in this call.
+func (p *Prog) statFresh() []Ob {
+	var obs []Ob
+	ea := p.ErrAtomsCached()
+	st := p.pkgType(modPath+"/pkg/segment", "Stats")
+	segStat := p.methodOf(p.R.Segment, "Stat")
+	if st == nil || segStat == nil {
+		return nil
+	}
+	for _, fn := range p.Funcs {
+		if !srcFunc(fn) || fn.Parent() != nil || recvNamed(fn) != p.R.SegReader {
+			continue
+		}
+		res := fn.Signature.Results()
+		if res.Len() != 2 || namedOf(res.At(0).Type()) != st {
+			continue
+		}
+		ob := Ob{Rule: "R36", Inst: "stat-fresh:" + funcLabel(fn), Props: []string{"C13"}, Pos: p.posStr(fn.Pos()), Func: funcLabel(fn), Nontrivial: true}
+		var bad []string
+		for _, rt := range returnsOf(fn) {
+			if ea.isFailureReturn(fn, rt) {
+				continue
+			}
+			v := canon(returnOperand(rt, 0))
+			okV := false
+			if ex, ok := v.(*ssa.Extract); ok {
+				if c, ok := ex.Tuple.(*ssa.Call); ok && c.Common().StaticCallee() == segStat {
+					okV = true
+				}
+			}
+			if !okV {
+				bad = append(bad, fmt.Sprintf("%s: returns %s with success", p.at(rt), v.String()))
+			}
+		}
+		if len(bad) > 0 {
+			ob.Status, ob.Msg, ob.Path = Violated, "a segment's statistics are answered from something kept from an earlier call: a rewrite of the segment under the same reader (delete that keeps the base offset, lazy reindex) leaves them stale", bad
+		} else {
+			ob.Status, ob.Msg = Discharged, "every success return hands on what Segment.Stat computed from the files in this call"
+		}
+		obs = append(obs, ob)
+	}
+	return obs
+}
